@@ -4,8 +4,10 @@ import (
 	"crypto/tls"
 	"fmt"
 	"os"
+	"os/exec"
 	"reflect"
 	"strings"
+	"syscall"
 	"testing"
 	"time"
 
@@ -227,6 +229,41 @@ func TestOptions(t *testing.T) {
 		r.Emit("oop", "proto", "xpair+xreq", "op", "device", "r", mangos.Device(a, x), "want", "ErrBadProto")
 		r.Emit("oop", "proto", "nil", "op", "device", "r", mangos.Device(nil, nil), "want", "ErrClosed")
 	})
+	// ipc peer credentials of a peer that is another process, running under another group id (needs root)
+	if os.Getuid() == 0 {
+		run("ep-ipc-cred", func(r *rec.Recorder) {
+			bin := macatBin(t)
+			a, _ := pair.NewSocket()
+			defer a.Close()
+			pipes := make(chan mangos.Pipe, 4)
+			a.SetPipeEventHook(func(ev mangos.PipeEvent, p mangos.Pipe) {
+				if ev == mangos.PipeEventAttached {
+					pipes <- p
+				}
+			})
+			path := fmt.Sprintf("%s/verif-cred-%d.sock", os.TempDir(), os.Getpid())
+			defer os.Remove(path)
+			if err := a.Listen("ipc://" + path); err != nil {
+				panic(err)
+			}
+			_ = os.Chmod(path, 0o777)
+			cmd := exec.Command(bin, "--pair", "--connect", "ipc://"+path, "--recv-timeout", "3")
+			cmd.SysProcAttr = &syscall.SysProcAttr{Credential: &syscall.Credential{Uid: 0, Gid: 4242}}
+			if err := cmd.Start(); err != nil {
+				panic(err)
+			}
+			defer func() { _ = cmd.Process.Kill(); _, _ = cmd.Process.Wait() }()
+			select {
+			case p := <-pipes:
+				pid, e1 := p.GetOption(mangos.OptionPeerPID)
+				uid, e2 := p.GetOption(mangos.OptionPeerUID)
+				gid, e3 := p.GetOption(mangos.OptionPeerGID)
+				r.Emit("opipecred", "pid", e1 == nil && pid == cmd.Process.Pid, "uid", e2 == nil && uid == 0, "gid", e3 == nil && gid == 4242)
+			case <-time.After(5 * time.Second):
+				r.Emit("opipecred", "pid", false, "uid", false, "gid", false)
+			}
+		})
+	}
 	// dialers, listeners and pipes of every transport; inheritance from the socket
 	for ti, tr := range realTrans() {
 		tr := tr
